@@ -40,7 +40,9 @@ def mw_case(draw, broker):
                     required.append("not_a_signal_argument")
                     params = params + ["not_a_signal_argument"]
                 subs.append({"signal": f"{phase}_{op}", "params": params, "required": required, "async": draw(st.booleans()),
-                             "behave": draw(st.sampled_from(["ok", "ok", "raise", "sleep", "return-garbage"]))})
+                             "behave": draw(st.sampled_from(["ok", "ok", "raise", "sleep", "return-garbage"])),
+                             # plain function, method of a middleware object, or function of a middleware class
+                             "via": draw(st.sampled_from(["fn", "fn", "obj", "cls"]))})
     return {"broker": broker, "seed": draw(st.integers(0, 999)), "subs": subs,
             "style": {op: draw(st.sampled_from(["pos", "kw", "mixed"])) for op in OP_ARGS},
             "two_connections": draw(st.booleans()), "other_subs": draw(st.booleans())}
@@ -57,10 +59,23 @@ def make_subscriber(spec: dict, log: list, label: str, loop) -> Any:
         body += "    await SLEEP(0.05)\n"
     elif spec["behave"] == "return-garbage":
         body += "    return object()\n"
+    via = spec.get("via", "fn")
+    if via == "obj":
+        params = "self" + (", " + params if params else "")
     src = f"{'async ' if spec['async'] else ''}def {spec['signal']}({params}):\n{body}"
     ns = {"MISSING": MISSING, "LOG": log, "SLEEP": asyncio.sleep, "STATE": lambda: None}
     exec(compile(src, "<subscriber>", "exec"), ns)  # noqa: S102
     return ns[spec["signal"]], ns
+
+
+def register(middleware, spec: dict, fn) -> None:
+    via = spec.get("via", "fn")
+    if via == "fn":
+        middleware.add_subscriber(fn)
+        return
+    # a helper that is no signal name rides along: it must be ignored
+    cls = type("GeneratedMiddleware", (), {spec["signal"]: fn, "helper": (lambda *a, **k: None)})
+    middleware.add_middleware(cls() if via == "obj" else cls)
 
 
 class _Missing:
@@ -98,7 +113,7 @@ async def _script(loop, case, out: Outcome, with_subs: bool):
         for spec in case["subs"]:
             fn, ns = make_subscriber(spec, log, "A", loop)
             ns["STATE"] = lambda: _state(env)
-            conn.middleware.add_subscriber(fn)
+            register(conn.middleware, spec, fn)
         # sentinels (never counted by the per-operation oracle): which keys do enqueue signals report?
         def before_enqueue(key=None):  # noqa: ANN001
             sentinel.append(("before_enqueue", getattr(key, "id_", None)))
